@@ -41,3 +41,9 @@ Definition chk_pick_schedule : P (list Z) :=
   code <- pz ;; found <- pbool ;;
   let ok := (code =? 0) && found in
   ret (verdict ok ok [code]).
+
+(** 1102: read-only phase: kind, number of concurrent searches, how many answered differently from the
+    same search run alone (no writer is active, so every difference is a search disturbed by another) *)
+Definition chk_readonly : P (list Z) :=
+  kind <- pz ;; n <- pz ;; mism <- pz ;;
+  ret (verdict (mism =? 0) (mism =? 0) [mism]).
